@@ -9,7 +9,8 @@ Open Scope list_scope.
 
 (* an argument value with the validator's annotations *)
 Inductive tvalue :=
-| TVar (name expected : string)                          (* Kind = Variable; Raw; ExpectedType.String() *)
+| TVar (name : string) (expected declared : option string)
+    (* Kind = Variable; Raw; ExpectedType.String() if attached; VariableDefinition.Type.String() if attached *)
 | TLeaf                                                  (* any other value without children *)
 | TKids (def : option string) (kids : list (string * tvalue)).
     (* a list (children named "") or an input object (children named by field); Definition.Name if attached *)
@@ -31,17 +32,19 @@ Definition lookup {V} (k : string) (l : list (string * V)) : option V :=
 (* walkChildrenArgumentList(typeDef, childs), as the list of map writes it performs, in order *)
 Fixpoint walk_kid (ts : types) (fs : list (string * string)) (chname : string) (v : tvalue) : list (string * string) :=
   match v with
-  | TVar n exp =>
-      (if chname =? "" then [(n, exp)] else []) ++
-      match lookup chname fs with Some t => [(n, t)] | None => [] end
-  | TLeaf => []
-  | TKids _ [] => []
-  | TKids None (_ :: _) => []
-  | TKids (Some d) ks =>
-      match lookup d ts with
-      | None => []
-      | Some fs' => (fix go (l : list (string * tvalue)) := match l with [] => [] | (k, x) :: t => walk_kid ts fs' k x ++ go t end) ks
+  | TVar n exp decl =>                                   (* childVariableType *)
+      match (if chname =? "" then exp else None) with
+      | Some e => [(n, e)]
+      | None => match lookup chname fs with
+                | Some t => [(n, t)]
+                | None => match decl with Some t => [(n, t)] | None => [] end
+                end
       end
+  | TLeaf => []
+  | TKids d ks =>
+      (* a value without a definition (inside a custom scalar) is walked with no field types at hand *)
+      let fs' := match d with Some d' => match lookup d' ts with Some x => x | None => [] end | None => [] end in
+      (fix go (l : list (string * tvalue)) := match l with [] => [] | (k, x) :: t => walk_kid ts fs' k x ++ go t end) ks
   end.
 Definition walk_kids (ts : types) (fs : list (string * string)) (ks : list (string * tvalue)) : list (string * string) :=
   flat_map (fun kx => walk_kid ts fs (fst kx) (snd kx)) ks.
@@ -53,7 +56,7 @@ Definition walk_arg (ts : types) (ads : argdefs) (a : string * tvalue) : list (s
   | Some (tstr, tname) =>
       match snd a with
       | TKids _ (k :: ks) => match lookup tname ts with Some fs => walk_kids ts fs (k :: ks) | None => [] end
-      | TVar n _ => [(n, tstr)]
+      | TVar n _ _ => [(n, tstr)]
       | _ => []
       end
   end.
@@ -77,21 +80,32 @@ Fixpoint last_write (n : string) (ws : list (string * string)) : option string :
 Definition header_declares (ts : types) (ss : list tsel) (n : string) : option string := last_write n (walk ts ss).
 
 (* ---- what the sub-request's body uses: every variable occurrence with the type its position expects ---- *)
+(* a position inside a value: the type the schema expects there when it says so (ExpectedType), otherwise — inside a
+   custom scalar, which takes any literal — the type the client declared the variable with *)
+Definition position_type (exp decl : option string) : option string :=
+  match exp with Some e => Some e | None => decl end.
 Fixpoint kid_positions (v : tvalue) : list (string * string) :=
   match v with
-  | TVar n exp => [(n, exp)]
+  | TVar n exp decl => match position_type exp decl with Some t => [(n, t)] | None => [] end
   | TLeaf => []
   | TKids _ ks => (fix go (l : list (string * tvalue)) := match l with [] => [] | (_, x) :: t => kid_positions x ++ go t end) ks
+  end.
+(* every variable occurrence, typed or not *)
+Fixpoint kid_vars (v : tvalue) : list string :=
+  match v with
+  | TVar n _ _ => [n]
+  | TLeaf => []
+  | TKids _ ks => (fix go (l : list (string * tvalue)) := match l with [] => [] | (_, x) :: t => kid_vars x ++ go t end) ks
   end.
 (* an argument that is itself a variable sits at a position of the argument's declared type (fields the planner
    synthesises, node(id: $id), carry the definition but no ExpectedType annotation) *)
 Definition arg_positions (fdef : option argdefs) (a : string * tvalue) : list (string * string) :=
   match snd a with
-  | TVar n exp =>
-      [(n, match fdef with
-           | Some ads => match lookup (fst a) ads with Some (tstr, _) => tstr | None => exp end
-           | None => exp
-           end)]
+  | TVar n exp decl =>
+      match fdef with
+      | Some ads => match lookup (fst a) ads with Some (tstr, _) => [(n, tstr)] | None => kid_positions (snd a) end
+      | None => kid_positions (snd a)
+      end
   | v => kid_positions v
   end.
 Fixpoint sel_positions (s : tsel) : list (string * string) :=
@@ -102,19 +116,30 @@ Fixpoint sel_positions (s : tsel) : list (string * string) :=
   | TInline sub => (fix go (l : list tsel) := match l with [] => [] | x :: t => sel_positions x ++ go t end) sub
   end.
 Definition positions (ss : list tsel) : list (string * string) := flat_map sel_positions ss.
+Fixpoint sel_vars (s : tsel) : list string :=
+  match s with
+  | TField _ args sub =>
+      flat_map (fun a => kid_vars (snd a)) args ++
+      (fix go (l : list tsel) := match l with [] => [] | x :: t => sel_vars x ++ go t end) sub
+  | TInline sub => (fix go (l : list tsel) := match l with [] => [] | x :: t => sel_vars x ++ go t end) sub
+  end.
+Definition vars (ss : list tsel) : list string := flat_map sel_vars ss.
 
 (* ---- the validator's annotation invariants, as a boolean the correspondence evaluates on every real step ---- *)
 Fixpoint wt_kid (ts : types) (fs : list (string * string)) (chname : string) (v : tvalue) : bool :=
   match v with
-  | TVar _ exp => if chname =? "" then true else match lookup chname fs with Some t => t =? exp | None => false end
+  | TVar _ exp decl =>
+      (* an object field the type at hand knows is expected at that field's type; anywhere else the variable has an
+         expected type or at least the client's declaration (NoUndefinedVariables) *)
+      if chname =? "" then match position_type exp decl with Some _ => true | None => false end
+      else match lookup chname fs with
+           | Some t => match exp with Some e => t =? e | None => false end
+           | None => match exp, decl with None, Some _ => true | _, _ => false end
+           end
   | TLeaf => true
-  | TKids _ [] => true
-  | TKids None (_ :: _) => false
-  | TKids (Some d) ks =>
-      match lookup d ts with
-      | None => false
-      | Some fs' => (fix go (l : list (string * tvalue)) := match l with [] => true | (k, x) :: t => wt_kid ts fs' k x && go t end) ks
-      end
+  | TKids d ks =>
+      let fs' := match d with Some d' => match lookup d' ts with Some x => x | None => [] end | None => [] end in
+      (fix go (l : list (string * tvalue)) := match l with [] => true | (k, x) :: t => wt_kid ts fs' k x && go t end) ks
   end.
 Definition wt_arg (ts : types) (ads : argdefs) (a : string * tvalue) : bool :=
   match lookup (fst a) ads with
